@@ -63,9 +63,18 @@ class Lexer:
         self.pre = body[:loops[0]]
         self.loop = body[loops[0]]
         self.post = body[loops[0] + 1:]
-        if self.loop.orelse or not isinstance(self.loop.target, ast.Name):
+        self.index = None
+        tgt, it_ = self.loop.target, self.loop.iter
+        if isinstance(tgt, ast.Tuple) and len(tgt.elts) == 2 and all(
+                isinstance(x, ast.Name) for x in tgt.elts) and isinstance(it_, ast.Call) \
+                and dotted(it_.func) == "enumerate" and len(it_.args) == 1:
+            # for position, character in enumerate(line): the position is never inspected
+            self.index = tgt.elts[0].id
+            tgt, it_ = tgt.elts[1], it_.args[0]
+        if self.loop.orelse or not isinstance(tgt, ast.Name):
             raise AnalysisError(f"{t.qualname}: loop target / else clause")
-        self.ch = self.loop.target.id
+        self.ch = tgt.id
+        self.loop_iter = it_
         # accumulators and plain state
         self.acc = {}       # name -> "list" | "str"
         self.iter_name = None
@@ -88,7 +97,7 @@ class Lexer:
                 self.init[name] = v.value
             else:
                 raise AnalysisError(f"{t.qualname}: set-up statement {norm(s)!r}")
-        it = dotted(self.loop.iter)
+        it = dotted(self.loop_iter)
         if it not in (self.line, self.iter_name):
             raise AnalysisError(f"{t.qualname}: the loop does not walk the line ({norm(self.loop.iter)})")
         self.can_next = it == self.iter_name and it is not None
@@ -118,6 +127,8 @@ class Lexer:
                 return env[e.id]
             if e.id == self.cur:
                 return ("acc", env["@nonempty"])
+            if e.id == self.index:
+                return ("index",)
             raise AnalysisError(f"{self.t.qualname}: reads {e.id}")
         if isinstance(e, ast.UnaryOp) and isinstance(e.op, ast.Not):
             return not self._truth(self._eval(e.operand, env))
@@ -211,7 +222,7 @@ class Lexer:
                     self._unknown(s.value)
                 else:
                     v = self._eval(s.value, env)
-                    if isinstance(v, tuple):
+                    if isinstance(v, tuple) and v != ("index",):
                         raise AnalysisError(f"{self.t.qualname}: state from an uninspected value")
                     env[name] = v
             elif isinstance(s, ast.AugAssign) and isinstance(s.op, ast.Add) \
